@@ -242,7 +242,7 @@ def validate_lines(scratch, tag, lines, max_rounds=6):
             break
         # go on behind the rejected line; lines with the same signature are not looked at again
         if ev["e1"] != cur:
-            tzl = json.dumps(dict(a="SetTZ", v=ev["e1"]))
+            tzl = json.dumps(dict(a="SetTZ", v=ev["e1"]), separators=(",", ":"))     # same spelling as the recorder (startswith tests above)
         rest, r_ref = [], ref
         for x in remaining[n:]:
             if x.startswith('{"a":"Announce"'):
